@@ -57,6 +57,9 @@ pub enum V {
     /// A clone of my handle slot `h` (falls back to New when empty or of the wrong kind).
     H(u8),
     Null,
+    /// A fresh value whose destructor is armed to panic from the start: if the operation rejects
+    /// it (a compare_and_swap that does not match) the crate itself drops its last count.
+    NewArmed,
 }
 
 #[derive(Clone, Copy, Debug, PartialEq, Eq, Serialize, Deserialize)]
@@ -273,6 +276,11 @@ fn pick_weighted(rng: &mut Rng, ws: &[u32]) -> usize {
 }
 
 pub fn gen_value(rng: &mut Rng, p: &GenParams) -> V {
+    // (drawn only where destructor panics are part of the workload, so every other workload
+    // keeps its stream of choices)
+    if p.w_arm_panic > 0 && rng.below(6) == 0 {
+        return V::NewArmed;
+    }
     let r = rng.below(10);
     if r < 6 || !p.same_value_again {
         V::New
